@@ -11,11 +11,11 @@ import (
 
 func init() {
 	register(&PropRules{
-		ID: "C04",
+		ID:      "C04",
 		Explain: "Every frontend returns exactly the store's verdict — structural part: (C04.1) credential identity per link: from each frontend's input (BasicAuth() results, JSON request fields, strings.Cut(bindDN,\"@\") first result and the bind password, SASL callback parameters, CLI arguments) to Store.Authenticate, through the request struct and the dispatcher's select case into store.Dir.Authenticate and UserHash.Authenticate, every value is passed unchanged (no slicing, trimming, case folding, re-encoding) and in the right position; the SASL server hands the four decoded fields to the callback in order and encoder/decoder agree on index↔field; (C04.2) success output (HTTP 200, session issuance, LDAPResultSuccess, SASL ok, exit status 0) only under ok==true (∧ err==nil where the error is not ignored); on a non-nil error the SASL callback returns false; (C04.3) library invariant ok ⇒ err==nil for UserHash.Authenticate and both Hasher.Check implementations (what makes ignoring err in the LDAP handler safe); (C04.4) store.Dir.Authenticate is called in the agent only from the dispatcher's authenticate step, so all five frontends share one verdict computation.",
-		Undec: []string{"decoding done inside net/http (basic-auth base64, charset), encoding/json, the BER decoder of glauth/ldap, urfave/cli", "transport limits", "dependence on the store state (C01)"},
-		Run:   runC04,
-		Floors: map[string]int{"C04.1": 12, "C04.2": 5, "C04.3": 3, "C04.4": 2},
+		Undec:   []string{"decoding done inside net/http (basic-auth base64, charset), encoding/json, the BER decoder of glauth/ldap, urfave/cli", "transport limits", "dependence on the store state (C01)"},
+		Run:     runC04,
+		Floors:  map[string]int{"C04.1": 12, "C04.2": 5, "C04.3": 3, "C04.4": 2},
 	})
 }
 
@@ -30,8 +30,8 @@ func dispatcherFn(p *an.Prog) *ssa.Function {
 			continue
 		}
 		for _, c := range gs.Callees {
-			for _, b := range c.Blocks {
-				for _, in := range b.Instrs {
+			for _, in := range an.DeepInstrs(c) {
+				{
 					if sel, ok := in.(*ssa.Select); ok && len(sel.States) >= 5 {
 						return c
 					}
@@ -201,28 +201,33 @@ func c041(c *an.Ctx, p *an.Prog) {
 		case r.Kind == "ldap":
 			evalLink(c, p, link{name: "ldap-bind -> Store.Authenticate", fn: r.Fn, callee: auth, check: func(s *an.PathState, a []*an.Term) []string {
 				var bad []string
-				cut, i := a[1].CallOf()
-				if cut == nil || cut.Aux != "strings.Cut" || i != 0 || cut.Args[0].K != s.T(r.Fn.Params[1]).K || !cut.Args[1].IsConst(`"@"`) {
-					bad = append(bad, "user name is not strings.Cut(bindDN, \"@\") result 0: "+a[1].K)
+				if f, ok := splitField(s, a[1]); !ok || !f.is(s.T(r.Fn.Params[1]), "@", 0, 2) {
+					bad = append(bad, "user name is not the part of bindDN in front of the first \"@\" (strings.Cut(bindDN, \"@\") result 0): "+a[1].K)
 				}
 				bad = append(bad, wantKey(a[2], s.T(r.Fn.Params[2]).K, "password")...)
 				return bad
 			}})
 		case r.Kind == "sasl":
-			cb := p.Func("/cmd/whawty-auth", "callback")
-			if cb == nil {
+			var bad []string
+			n := 0
+			var pos string
+			complete := argsAt(p, r.Fn, auth, 0, func(s *an.PathState, a []*an.Term, site ssa.CallInstruction) {
+				n++
+				pos = p.InstrPos(site)
+				bad = append(bad, wantKey(a[1], s.T(r.Fn.Params[0]).K, "user name")...)
+				bad = append(bad, wantKey(a[2], s.T(r.Fn.Params[1]).K, "password")...)
+			})
+			if !complete {
+				bad = append(bad, "path limit")
+			}
+			if n == 0 {
+				c.Undecided("C04.1", "link=sasl-callback("+r.Name+") -> Store.Authenticate", p.Pos(r.Fn.Pos()), "UNRESOLVED: the SASL callback does not reach Store.Authenticate through static calls")
 				continue
 			}
-			evalLink(c, p, link{name: "sasl-closure(" + r.Name + ") -> callback", fn: r.Fn, callee: cb.String(), check: func(s *an.PathState, a []*an.Term) []string {
-				var bad []string
-				for i := 0; i < 4; i++ {
-					bad = append(bad, wantKey(a[i], s.T(r.Fn.Params[i]).K, fmt.Sprintf("callback argument %d", i))...)
-				}
-				return bad
-			}})
+			c.Check(len(bad) == 0, "C04.1", "link=sasl-callback("+r.Name+") -> Store.Authenticate", pos, fmt.Sprintf("login and password of the callback passed unchanged and in position on %d paths", n), strings.Join(uniqS(bad), "; "))
 		}
 	}
-	if cb := p.Func("/cmd/whawty-auth", "callback"); cb != nil {
+	if cb := p.Func("/cmd/whawty-auth", "callback"); cb != nil && len(cb.Params) == 6 {
 		evalLink(c, p, link{name: "callback -> Store.Authenticate", fn: cb, callee: auth, check: func(s *an.PathState, a []*an.Term) []string {
 			var bad []string
 			bad = append(bad, wantKey(a[0], s.T(cb.Params[5]).K, "store")...)
@@ -502,62 +507,92 @@ func c042(c *an.Ctx, p *an.Prog) {
 		})
 		c.Check(len(bad) == 0 && n > 0, "C04.2", "verdict=ldap-bind", p.Pos(r.Fn.Pos()), "LDAPResultSuccess only under ok==true (err ignored: safe by C04.3)", strings.Join(uniqS(bad), "; "))
 	}
-	// SASL callback
-	if cb := p.Func("/cmd/whawty-auth", "callback"); need(c, "C04.2", cb, "main.callback") {
-		var bad []string
-		n := 0
-		an.EnumPaths(cb, nil, nil, func(s *an.PathState) {
-			ret := lastReturn(s)
-			if ret == nil {
+	// SASL: every function between the callback registered with the sasl server and Store.Authenticate — the callback
+	// itself and the module functions it reaches the store through — returns a verdict that can be true only as the
+	// verdict (true, nil error) of the next link.
+	{
+		chain := map[*ssa.Function]bool{}
+		var order []*ssa.Function
+		var walk func(f *ssa.Function, depth int)
+		walk = func(f *ssa.Function, depth int) {
+			if chain[f] || depth > 3 {
 				return
 			}
-			n++
-			var ac *an.Term
-			for _, e := range s.Events {
-				if e.Kind == "call" && e.Callee == storeM+"Authenticate" {
-					ac = e.Res
+			chain[f] = true
+			order = append(order, f)
+			for _, in := range an.DeepInstrs(f) {
+				if ci, ok := in.(*ssa.Call); ok {
+					if g := ci.Common().StaticCallee(); g != nil && p.InRepo(g) && !an.Inlinable(g) && an.FnName(g) != storeM+"Authenticate" && reachesCall(p, g, storeM+"Authenticate", 0) {
+						walk(g, depth+1)
+					}
 				}
 			}
-			ok0 := ret.Args[0]
-			if ok0.IsConst("false") {
-				return
-			}
-			if ac == nil || ok0.K != extractOf(ac, 0).K {
-				bad = append(bad, "callback verdict is "+ok0.K+", not the store's ok")
-				return
-			}
-			if !extractNil(s, ac, 3) {
-				bad = append(bad, "store's ok returned although err may be non-nil (path "+s.BlockPath()+")")
-			}
-			if !ret.Args[2].IsConst("nil") {
-				bad = append(bad, "non-false verdict returned together with an error value")
-			}
-		})
-		c.Check(len(bad) == 0 && n > 0, "C04.2", "verdict=sasl-callback", p.Pos(cb.Pos()), "returns the store's ok under err==nil, false otherwise", strings.Join(uniqS(bad), "; "))
-	}
-	// sasl closures return callback's results unchanged
-	for _, r := range roots {
-		if r.Kind != "sasl" {
-			continue
 		}
-		var bad []string
-		an.EnumPaths(r.Fn, nil, nil, func(s *an.PathState) {
-			ret := lastReturn(s)
-			if ret == nil {
-				return
+		nRoots := 0
+		for _, r := range roots {
+			if r.Kind == "sasl" {
+				nRoots++
+				walk(r.Fn, 0)
 			}
-			cc, _ := ret.Args[0].CallOf()
-			if cc == nil || cc.Aux != mainPkg+".callback" {
-				bad = append(bad, "closure does not return callback's results")
-				return
+		}
+		if nRoots == 0 {
+			c.Undecided("C04.2", "verdict=sasl-callback", "-", "UNRESOLVED: no SASL callback root")
+		}
+		for _, fn := range order {
+			fn := fn
+			var bad []string
+			n := 0
+			if fn.Signature.Results().Len() != 3 {
+				c.Fail("C04.2", "verdict=sasl:"+an.FnName(fn), p.Pos(fn.Pos()), "a function on the SASL verdict chain does not return (ok, msg, err)")
+				continue
 			}
-			for i := range ret.Args {
-				if ret.Args[i].K != extractOf(cc, i).K {
-					bad = append(bad, fmt.Sprintf("result %d altered", i))
+			an.EnumPaths(fn, nil, nil, func(s *an.PathState) {
+				ret := lastReturn(s)
+				if ret == nil {
+					return
 				}
-			}
-		})
-		c.Check(len(bad) == 0, "C04.2", "verdict=sasl-closure("+r.Name+")", p.Pos(r.Fn.Pos()), "closure forwards callback's (ok, msg, err) unchanged", strings.Join(uniqS(bad), "; "))
+				n++
+				ok0 := ret.Args[0]
+				if ok0.IsConst("false") {
+					return
+				}
+				// the link this verdict comes from: the last call to the store or to the next chain function
+				var ac *an.Term
+				errIdx := 3
+				for _, e := range s.Events {
+					if e.Kind != "call" {
+						continue
+					}
+					if e.Callee == storeM+"Authenticate" {
+						ac, errIdx = e.Res, 3
+					} else if e.Fn != nil && chain[e.Fn] && e.Fn != fn {
+						ac, errIdx = e.Res, 2
+					}
+				}
+				if ac == nil {
+					bad = append(bad, "a verdict that may be true is returned without asking the store: "+ok0.K+" (path "+s.BlockPath()+")")
+					return
+				}
+				switch {
+				case ok0.K == extractOf(ac, 0).K:
+				case ok0.IsConst("true") && extractTrue(s, ac, 0):
+				default:
+					bad = append(bad, "verdict is "+ok0.K+", not the store's ok")
+					return
+				}
+				// forwarded unchanged together with its error, or returned under err == nil
+				if ret.Args[2].K == extractOf(ac, errIdx).K && errIdx == 2 {
+					return
+				}
+				if !extractNil(s, ac, errIdx) {
+					bad = append(bad, "store's ok returned although err may be non-nil (path "+s.BlockPath()+")")
+				}
+				if !ret.Args[2].IsConst("nil") && ret.Args[2].K != extractOf(ac, errIdx).K {
+					bad = append(bad, "non-false verdict returned together with an error value")
+				}
+			})
+			c.Check(len(bad) == 0 && n > 0, "C04.2", "verdict=sasl:"+an.FnName(fn), p.Pos(fn.Pos()), "verdict is the next link's ok (under err==nil, or forwarded with its error), false otherwise", strings.Join(uniqS(bad), "; "))
+		}
 	}
 	// basic-auth and API: covered by the gate helpers
 	for _, r := range roots {
@@ -773,4 +808,64 @@ func c044(c *an.Ctx, p *an.Prog) {
 		}
 	}
 	c.Check(len(bad) == 0 && len(okc) > 0, "C04.4", "funnel|s.authenticate", p.Pos(sa.Pos()), "called only from the dispatcher goroutine", strings.Join(uniqS(bad), "; "))
+}
+
+// argsAt visits, for every path of fn that reaches a call to callee — directly, inside helpers interpreted inline, or
+// inside module functions called statically on the way (bounded depth) — the argument terms of that call expressed
+// in fn's own vocabulary (parameters of intermediate functions replaced by the arguments they were called with).
+func argsAt(p *an.Prog, fn *ssa.Function, callee string, depth int, visit func(s *an.PathState, args []*an.Term, site ssa.CallInstruction)) bool {
+	complete := true
+	for _, ci := range an.CallsTo(fn, callee) {
+		ci := ci
+		r := an.EnumPaths(fn, nil, ci, func(s *an.PathState) { visit(s, s.CallArgs(ci), ci) })
+		if !r.Complete {
+			complete = false
+		}
+	}
+	if depth >= 3 {
+		return complete
+	}
+	for _, in := range an.DeepInstrs(fn) {
+		ci, ok := in.(*ssa.Call)
+		if !ok {
+			continue
+		}
+		g := ci.Common().StaticCallee()
+		if g == nil || !p.InRepo(g) || an.Inlinable(g) || an.CalleeName(ci) == callee || !reachesCall(p, g, callee, depth+1) {
+			continue
+		}
+		r := an.EnumPaths(fn, nil, ci, func(s *an.PathState) {
+			pm := an.ParamMap(g, s.CallArgs(ci))
+			if !argsAt(p, g, callee, depth+1, func(_ *an.PathState, inner []*an.Term, site ssa.CallInstruction) {
+				out := make([]*an.Term, len(inner))
+				for i, a := range inner {
+					out[i] = an.Subst(a, pm, an.FnName(g))
+				}
+				visit(s, out, site)
+			}) {
+				complete = false
+			}
+		})
+		if !r.Complete {
+			complete = false
+		}
+	}
+	return complete
+}
+
+func reachesCall(p *an.Prog, g *ssa.Function, callee string, depth int) bool {
+	if len(an.CallsTo(g, callee)) > 0 {
+		return true
+	}
+	if depth >= 3 {
+		return false
+	}
+	for _, in := range an.DeepInstrs(g) {
+		if ci, ok := in.(*ssa.Call); ok {
+			if h := ci.Common().StaticCallee(); h != nil && h != g && p.InRepo(h) && !an.Inlinable(h) && reachesCall(p, h, callee, depth+1) {
+				return true
+			}
+		}
+	}
+	return false
 }
